@@ -18,3 +18,9 @@ claim("C09",
   "Decides structural necessary conditions of C09 for every input and configuration: whenever a pod is charged to 'used' it is charged to 'max(used,request)' too (node and NUMA level), both levels charge under the same arms, the policy formula is non-increasing in every consumption input on every policy branch and every entry is zero-clamped (and threshold-capped from capacity), stale metrics lead to Reset and never to the computation. It does not decide the numeric bound or the mid-tier arithmetic.",
   "trusts the polarity operator table (semantics of quota/v1 Add/Subtract/Max and util.MinQuant/Multiply*Quant read from source) and assumes non-negative configured percentages",
   "DESIGN.md §4 C09")
+
+claim("C15",
+  "custom SSA rules: transaction rule (no topology write before a reachable error return) via conditional-constant exploration, write-set who-may-write rule, error-propagation rule on every validator call, ancestor-walk recogniser gating the parent-link store, must-lockset",
+  "Decides structural necessary conditions of C15 for every request history: a rejected request cannot have modified the recorded topology, only the three validated entry points (and the informer replay handlers) write it, no validator error is dropped, the parent link is recorded only after a validator that walks the ancestor chain and rejects self-ancestry (no cycles), and all accesses are under the topology lock. It does not decide the min-sum arithmetic or the key-set comparisons.",
+  "trusts go/ssa and the rule tables in internal/rules/c15.go; informer handlers are exempt from the write-set rule because they replay objects the API server already admitted",
+  "DESIGN.md §4 C15")
